@@ -54,6 +54,7 @@ func TestRomanEnglishRoundTrip(t *testing.T) {
 	for n := int64(-2000); n <= 120000; n++ {
 		check(big.NewInt(n))
 	}
+	ensureTables()
 	for _, n := range englishBig {
 		check(n)
 	}
